@@ -291,11 +291,17 @@ def h_struct(cx, which):
         a = mk_rich(cx, 'a', 'covmix')
         obj = [a, a * 3.0]
         obj[0].tag = {'k': [1, 2.5, None]}
-    elif which == 'array':
+    elif which in ('array', 'array-T', 'array-F', 'array-slice'):
         a = mk_rich(cx, 'a', 'irregular')
         b = mk_rich(cx, 'b', 'irregular')
         obj = np.array([[a, b], [a * b, a - b], [b, 3 * a]], dtype=object)
         obj[2, 0].tag = 7
+        if which == 'array-T':
+            obj = obj.T                           # a view whose memory order is not row-major
+        elif which == 'array-F':
+            obj = np.asfortranarray(obj)
+        elif which == 'array-slice':
+            obj = obj[::-1, ::-1][:2]             # reversed / strided view
     elif which in ('array-prefix', 'list-prefix', 'corr-prefix'):
         a = mk_rich(cx, 'a', 'prefix')
         b = mk_rich(cx, 'b', 'prefix')
@@ -410,7 +416,7 @@ def jobs(tier, seed):
     for w in ('array-prefix', 'list-prefix', 'corr-prefix'):
         add('struct', which=w)
     add('dict', many=True)
-    for w in ('list', 'list-cov', 'array', 'array3', 'corr', 'corr-none-tag', 'corr-matrix-none', 'corr-pad-prange-tag', 'corr-matrix-prange'):
+    for w in ('list', 'list-cov', 'array', 'array-T', 'array-F', 'array-slice', 'array3', 'corr', 'corr-none-tag', 'corr-matrix-none', 'corr-pad-prange-tag', 'corr-matrix-prange'):
         add('struct', which=w)
     add('dict')
     add('pandas', gz=False)
